@@ -473,3 +473,11 @@ func (c *RawConn) ResumeLegacy() {
 		c.stream.Resume()
 	}
 }
+
+// LegacyComments returns the number of SSE comment lines seen on the legacy stream so far.
+func (c *RawConn) LegacyComments() int {
+	if c.stream == nil {
+		return 0
+	}
+	return c.stream.CommentsSoFar()
+}
